@@ -161,7 +161,14 @@ def leaf(draw, dim, ctx, hint):
         V = [[h, -h, -h], [-h, -h, -h], [0, h, -h], [h, -h, h], [-h, -h, h], [0, h, h]]
         F = [[0, 1, 2], [3, 5, 4], [0, 3, 4], [0, 4, 1], [1, 4, 5], [1, 5, 2], [2, 5, 3], [2, 3, 0]]
     V = [[_r(c[i] + v[i], 4) for i in range(3)] for v in V]
-    return {"t": "mesh", "var": var, "verts": V, "faces": F, "kind": mk}
+    # the vertex order of the faces is the user's: consistently outward, consistently inward
+    # (inside-out mesh) or mixed - the domain has to orient the mesh itself
+    winding = draw(st.sampled_from(["out", "out", "in", "mixed"]))
+    if winding == "in":
+        F = [[f[0], f[2], f[1]] for f in F]
+    elif winding == "mixed":
+        F = [[f[0], f[2], f[1]] if i % 3 == 1 else list(f) for i, f in enumerate(F)]
+    return {"t": "mesh", "var": var, "verts": V, "faces": F, "kind": mk, "winding": winding}
 
 
 def probe_envs(ctx):
@@ -198,8 +205,11 @@ def _hint_of(E, ctx):
 def expr(draw, dim, ctx, depth, hint=None, ops=("union", "cut", "isect", "translate", "rotate")):
     """single-variable interior expression of the given dimension."""
     if hint is None:
-        lim = 1000.0 if ctx.far else 8.0
-        hint = ([draw(num(-lim, lim)) for _ in range(dim)], draw(num(0.5, 4.0)))
+        size = draw(num(0.5, 4.0))
+        # one third of the shapes sit at / near the origin (within about one size): code that
+        # confuses "relative to the centre" with "relative to the origin" is only wrong there
+        lim = 1000.0 if ctx.far else (8.0 if draw(st.integers(0, 2)) else 1.2 * size)
+        hint = ([draw(num(-lim, lim)) for _ in range(dim)], size)
     if depth <= 0 or draw(st.integers(0, 9)) < 3:
         return draw(leaf(dim, ctx, hint))
     choices = [o for o in ops if not (o == "rotate" and dim != 2)]
